@@ -921,6 +921,29 @@ func (r *fhRun) run(only map[int]bool) {
 				newest = m
 			}
 		}
+		// method timestamp, before the invocation: does the marker exist, and what vouches for an
+		// "up to date" verdict — an existing generates file at least as new as every source (`gen`),
+		// else the marker (`marker`), else nothing (`none`)
+		hasMarker, vouch := "0", "none"
+		{
+			mv, okm := prev.marks[fhNorm(t.Name)]
+			if okm {
+				hasMarker = "1"
+			}
+			gfiles, _ := realGlobs(r.taskDirAbs(t), t.Generates)
+			genVouch := false
+			for _, g := range gfiles {
+				if logicalMtime(g) >= newest {
+					genVouch = true
+				}
+			}
+			switch {
+			case genVouch:
+				vouch = "gen"
+			case okm && mv >= newest:
+				vouch = "marker"
+			}
+		}
 		pre := r.render(prev)
 		o := r.invoke(s)
 		r.learnStreams()
@@ -952,10 +975,16 @@ func (r *fhRun) run(only map[int]bool) {
 			}
 		}
 		for key, v := range snap.marks {
-			// a run that was skipped re-touches the marker: the cause of a later skip stays
-			// with whoever touched it before
-			if pv, ok := prev.marks[key]; (!ok || pv != v) && !(s.Mode == "run" && o.skipped) {
+			// (a skipped run that MOVES the marker — what every check did before the fix of
+			// C04-timestamp-marker-moved-by-every-check — is not its writer: the cause of a later skip
+			// stays with whoever touched it before.  A skipped run that CREATES it is: `wskip=1`.)
+			if pv, ok := prev.marks[key]; !ok || (pv != v && !(s.Mode == "run" && o.skipped)) {
 				r.writer["M"+key] = k
+			}
+		}
+		for key := range prev.marks {
+			if _, ok := snap.marks[key]; !ok {
+				r.writer["M"+key] = k // removed (TimestampChecker.OnError)
 			}
 		}
 		// ---- monitors on the real observations
@@ -964,13 +993,16 @@ func (r *fhRun) run(only map[int]bool) {
 			method = "checksum"
 		}
 		facts := func(kind string) string {
-			w, wmode, wexit, wtask := "-", "-", "-", "-"
+			w, wmode, wexit, wtask, wskip := "-", "-", "-", "-", "0"
 			wk := "C" + fhNorm(fhDisplay(t))
 			if method == "timestamp" {
 				wk = "M" + fhNorm(t.Name)
 			}
 			if j, ok := wprev[wk]; ok {
 				w, wmode, wexit, wtask = strconv.Itoa(j), r.d.Steps[j].Mode, r.obsExit[j], strconv.Itoa(r.d.Steps[j].Task%len(r.d.Tasks))
+				if r.skips[j] {
+					wskip = "1" // the store was last written by an invocation that reported "up to date"
+				}
 			}
 			la, laexit := "-", "-"
 			if matched != nil {
@@ -980,7 +1012,8 @@ func (r *fhRun) run(only map[int]bool) {
 			if matched != nil && newest > matched.time {
 				newer = "1" // some source is newer than the last attempt
 			}
-			return fmt.Sprintf("viol kind=%s method=%s gens=%s writer=%s wmode=%s wexit=%s wtask=%s lastatt=%s laexit=%s srcnewer=%s", kind, method, b2s(gens), w, wmode, wexit, wtask, la, laexit, newer)
+			return fmt.Sprintf("viol kind=%s method=%s gens=%s writer=%s wmode=%s wexit=%s wtask=%s lastatt=%s laexit=%s srcnewer=%s marker=%s vouch=%s wskip=%s",
+				kind, method, b2s(gens), w, wmode, wexit, wtask, la, laexit, newer, hasMarker, vouch, wskip)
 		}
 		// C04: skip ⇒ goodRun
 		if s.Mode == "run" && o.skipped && len(t.Sources) > 0 && !good {
@@ -1090,8 +1123,21 @@ func newFhRun(d fhCase) *fhRun {
 	return r
 }
 
-// evalHist runs one case and returns the lines to emit for property `prop`.
+// evalHist runs one case and returns the lines to emit for property `prop`.  An invocation that
+// hit the 25 s wall-clock limit (a starved machine: the binary needs milliseconds) is not an
+// observation of the code under test: the whole case is evaluated again, at most twice; a hang
+// of the binary itself reproduces and is still reported as `e=timeout`.
 func evalHist(d fhCase, prop string) (lines []fhLine) {
+	for attempt := 0; ; attempt++ {
+		var timedOut bool
+		lines, timedOut = evalHistOnce(d, prop)
+		if !timedOut || attempt == 2 {
+			return lines
+		}
+	}
+}
+
+func evalHistOnce(d fhCase, prop string) (lines []fhLine, timedOut bool) {
 	defer func() {
 		if rec := recover(); rec != nil {
 			lines = []fhLine{{"finger.hist 0 0 0", fmt.Sprintf("panic %v", rec)}}
@@ -1108,6 +1154,11 @@ func evalHist(d fhCase, prop string) (lines []fhLine) {
 	src, gen := r.staticMatches()
 	cl := r.caseLine(src, gen)
 	r.run(nil)
+	for _, x := range r.obsExit {
+		if x == "timeout" {
+			timedOut = true
+		}
+	}
 	il := strings.Join(r.segs, " | ")
 	if r.err != "" {
 		il = "harness-error " + r.err
@@ -1128,6 +1179,11 @@ func evalHist(d fhCase, prop string) (lines []fhLine) {
 			r2 := newFhRun(d)
 			defer os.RemoveAll(r2.work)
 			r2.run(only)
+			for _, x := range r2.obsExit {
+				if x == "timeout" {
+					timedOut = true
+				}
+			}
 			for k := range d.Steps {
 				if only[k] && r2.segs[k] != r.segs[k] {
 					r.viol = append(r.viol, fhViol{"c12", k, d.Steps[k].Task, "viol kind=continuation-differs step=" + strconv.Itoa(k)})
@@ -1146,7 +1202,7 @@ func evalHist(d fhCase, prop string) (lines []fhLine) {
 	if n == 0 {
 		lines = append(lines, fhLine{fmt.Sprintf("finger.mon %s - -", prop), "ok"})
 	}
-	return lines
+	return lines, timedOut
 }
 
 // ---------------------------------------------------------------------------- fingerhist: generation
